@@ -22,27 +22,24 @@ FP = ["lib/cabfile:", "lib/authenticode:.VerifyCab", "lib/authenticode:.SignCabI
       "lib/zipslicer:.ZipToTar", "lib/zipslicer:.tarAddStream", "signers/xap:", "signers/zipbased:"]
 
 ASPECT_THEOREMS = {
-    "C01": ["cab_law_extract", "cab_law_hashin", "cab_sign_then_verify", "cab_refuses_clean", "cab_embed_defined",
-            "xap_law_extract", "xap_law_hashin", "xap_sign_then_verify", "xap_refuses_clean", "xap_embed_defined"],
+    "C01": ["cab_law_extract", "cab_law_extract_refuted", "cab_accepted_layout", "cab_wf_exact", "cab_signed_verifies", "cab_bad_layout_refused", "cab_law_hashin", "cab_format_laws", "cab_sign_then_verify",
+            "cab_sign_file_is_makepatch", "cab_refuses_clean", "cab_embed_defined",
+            "xap_law_extract", "xap_law_hashin", "xap_law_hashin_refuted", "xap_format_laws", "xap_sign_then_verify", "xap_refuses_clean", "xap_embed_defined",
+            "xap_verifier_digest_eq"],
     "C08": ["cab_law_hashin", "cab_resign_history", "cab_wf_preserved", "cab_is_signed_spec",
-            "xap_law_hashin", "xap_resign_history", "xap_is_signed_spec", "xap_signed_not_resignable"],
+            "xap_law_hashin", "xap_resign_history", "xap_wf_preserved", "xap_is_signed_spec", "xap_signed_resignable"],
     "C03": ["cab_law_payload", "cab_only_these_ranges_differ", "xap_law_payload", "xap_only_these_ranges_differ"],
     "C02": ["cab_protect", "cab_exempt_fields_unprotected", "xap_protect", "xap_exempt_fields_unprotected"],
-    "C05": ["cab_hashin_eq_spec", "xap_hashin_eq_spec"],
+    "C05": ["cab_hashin_eq_spec", "xap_hashin_eq_spec", "xap_verifier_digest_eq"],
 }
 
-# Genuine divergences of relic from the properties, found by this module and not (yet) listed in known_findings.json.
-# They are recorded in the evidence (coverage.provisional_findings, with the concrete input) and printed as
-# PROVISIONAL-FINDING lines instead of failing the run; every other key fails the run.  Keys are given without the
-# property prefix.
-PROVISIONAL = {
-    "xap:resign-refused": ("C08", "signing an already signed XAP is refused (\"zip central directory not found\"): zipslicer.FindDirectory wants the end "
-                                  "record in the last 22 bytes, the XAP trailer follows it; removeSignature in DigestXapTar is unreachable"),
-    "xap:sign-panics-directory-offset-in-tail": ("C01", "a zip whose end record gives a central directory offset inside the last 10 bytes makes "
-                                                        "signxap.removeSignature slice cd[size-10:size] with size < 10: panic instead of a refusal"),
-    "cab:signs-what-it-cannot-verify": ("C01", "a cabinet header whose coffFiles does not equal the end of the folder table (and whose cbCabinet is not the "
-                                               "file length) is digested sequentially but patched by offset: relic signs it and then rejects its own output"),
-}
+# Findings of this module (concrete inputs on which the unchanged relic diverges from a property) go through ctx.violation
+# with found_input=True under the keys <pid>:<what>; whether such a key becomes a `fix:` commit in /repo or an entry of
+# known_findings.json is decided outside this file.
+# Repaired in /repo and kept as regression classes judged by the general oracles:
+#   cab:signs-what-it-cannot-verify (6b49488; kinds `regress-layout`, `witness-overlap`, `bad-both-*`, `bad-files-*`, `bad-gap`: now refused
+#       cleanly, theorems cab_accepted_layout / cab_bad_layout_refused), xap:resign-refused (956170e; kinds `*+resign`, `foreign-signed`),
+#   xap:sign-panics-directory-offset-in-tail (f898997; kinds `cdoff-tail-*`).
 
 
 def relevant(ctx, aspect):
@@ -141,20 +138,13 @@ def light(r):
 def body(ctx, replay=None):
     pid = ctx.pid
     st = ctx.prepare(["FmtCAB_gen"], ["FmtCAB"], "FmtCAB.Run")
-    res = {"unit": UNIT, "status": st, "evaluations": 0, "distinct": 0, "samples": [], "notes": [], "provisional": {}}
+    res = {"unit": UNIT, "status": st, "evaluations": 0, "distinct": 0, "samples": [], "notes": []}
     if not st["harness_ok"]:
         return res
-    prov = res["provisional"]
 
     def report(aspect, what, detail, obj, found=True):
-        if not relevant(ctx, aspect):
-            return
-        key = "%s:%s" % (pid, what)
-        if found and what in PROVISIONAL and not any(k.get("key") == key and k.get("property") == pid for k in ctx.known):
-            if what not in prov:
-                prov[what] = {"key": key, "aspect": aspect, "what": PROVISIONAL[what][1], "detail": detail, "input": obj}
-            return
-        ctx.violation(key, detail, obj, found)
+        if relevant(ctx, aspect):
+            ctx.violation("%s:%s" % (pid, what), detail, obj, found)
 
     # ---- run the implementation
     if replay:
@@ -192,8 +182,11 @@ def body(ctx, replay=None):
         hist["%s/%s/round%d/%s" % (f, e["mode"], e["round"], {0: "signed", 1: "refused", 9: "panic"}[e["st"]])] += 1
         real_key = e["mode"] in ("lib", "pipeline")
         if e["st"] == 9:
-            report("C01", "%s:sign-panics-directory-offset-in-tail" % f if f == "xap" and "slice bounds" in e["err"] else "%s:sign-panics" % f,
+            report("C01", "%s:sign-panics" % f,
                    "signing panicked instead of refusing: %s (input kind %s)" % (e["err"], fin["kind"]), replay_obj(e))
+        if fin["kind"].startswith(("regress-layout", "witness-overlap")) and e["st"] != 1:
+            report("C01", "cab:bad-layout-not-refused", "a cabinet whose folder table does not end at coffFiles was not refused with an error (%s): %s" %
+                   ({0: "signed", 9: "panic"}[e["st"]], e.get("err", "")), replay_obj(e))
         if e["st"] != 0:
             if not e["in_same"]:
                 report("C01", "%s:refusal-modified-input" % f, "signing failed (%s) but the input file changed" % e["err"], replay_obj(e))
@@ -359,12 +352,21 @@ def body(ctx, replay=None):
                         z, b = xap_spec_split(raw[r["id"]])
                     except ValueError:
                         z, b = None, None
-                    if b is None or b.hex() != sig or z.hex() != hpre:
-                        bad.append("model extract / verify-side digest input differ from the specification's split of the file")
+                    if b is None or b.hex() != sig:
+                        bad.append("model extract differs from the blob of the specification's split of the file")
                 if wf:
                     indom += 1
-                    if dg_st == 0 and (pre != r["file"] or hpre != r["file"]):
-                        bad.append("in-domain file: digest input is not the whole file")
+                    # theorem instances: xap_hashin_eq_spec (digest input = the specification's zip part), xap_is_signed_spec
+                    if dg_st != 0 or spec_st != 0 or pre != spec_zip or hpre != spec_zip:
+                        bad.append("in-domain file: digest input is not the zip part of the specification's split (xap_hashin_eq_spec instance)")
+                    if (ext_st == 0) != bool(spec_signed) or ext_st not in (0, 1):
+                        bad.append("in-domain file: is_signed differs from xap_spec_signed (xap_is_signed_spec instance)")
+                    try:
+                        zpy, bpy = xap_spec_split(raw[r["id"]])
+                    except ValueError:
+                        zpy, bpy = None, None
+                    if zpy is None or zpy.hex() != spec_zip or (bpy is not None) != bool(spec_signed) or (bpy is not None and bpy.hex() != spec_blob):
+                        bad.append("in-domain file: python and Coq specification splits differ")
                 exp_signed = {0: (1, 2), 1: (0,), 2: (2,), 9: (2,)}[ecls(ext_st)]
                 if r["signed"] not in exp_signed:
                     bad.append("IsSigned %d, model extract %d" % (r["signed"], ext_st))
@@ -391,8 +393,8 @@ def body(ctx, replay=None):
                         bad.append("law_hashin instance fails in the model")
                     if e["fmt"] == "cab" and mo["pay"] != mi["pay"]:
                         bad.append("law_payload instance fails in the model")
-                    if e["fmt"] == "cab" and not mo["wf"]:
-                        bad.append("signed output of an in-domain cabinet is not in the domain (cab_wf_preserved instance)")
+                    if not mo["wf"]:
+                        bad.append("signed output of an in-domain file is not in the domain (cab_wf_preserved / xap_wf_preserved instance)")
             if dom and est != 0:
                 bad.append("in-domain input refused by the model (embed_defined instance)")
             if bad:
@@ -411,6 +413,15 @@ def body(ctx, replay=None):
     res["notes"] = ["files observed %d, signing steps %d, in-domain instances %d, spec-digest comparisons %d" % (len(files), len(embs), indom, n_c05),
                     "signing outcomes: %s" % dict(sorted(hist.items())), "mutation sweeps: %s" % mut_stats, "model mismatches: %d" % len(mism)]
     res["mutation"] = mut_stats
+    # the inputs behind the `_refuted` theorems, replayed on the real code (model = relic on them is part of the correspondence)
+    wit = collections.Counter()
+    for e in embs:
+        k = files[e["in"]]["kind"].split("+")[0]
+        if k.startswith("witness-"):
+            fo = files.get(e["out"])
+            wit["%s round %d: %s%s" % (k, e["round"], {0: "signed", 1: "refused", 9: "panic"}[e["st"]],
+                                        "" if fo is None else ", own parser/verifier class %d/%d" % (fo["dg_st"], fo["vf_st"]))] += 1
+    res["notes"].append("refuted-theorem witnesses on the real code: %s" % dict(sorted(wit.items())))
     return res
 
 
@@ -421,10 +432,8 @@ def run(ctx, replay=None):
     out = ctx.proof_coverage(["srcgen translator (constants, struct layouts, conditions, field tables of cabfile.Digest/MakePatch, VerifyCab, zipslicer.FindDirectory/ZipToTar, signxap DigestXapTar/removeSignature/Sign/Verify)",
                               "correspondence harness drv-fmtcab (real library code and registered signers on harness-generated CAB/ZIP/XAP files and the fixtures)",
                               "lib/binpatch model C12.Model (proved separately) for the application of the patch set",
-                              "symbolic cryptography and CMS: section hypotheses sign_correct, deser of a zero-padded blob; pkcs7/x509 code is outside this module",
+                              "symbolic cryptography and CMS: section hypotheses sign_correct, deser_ser, deser_padded (pkcs7.Unmarshal ignores the zero padding MakePatch adds); pkcs7/x509 code is outside this module",
                               "archive/tar transport between ZipToTar and DigestXapTar modelled as the identity on the two members"], FP)
-    for k, p in sorted(cov["provisional"].items()):
-        print("PROVISIONAL-FINDING: property=%s %s (%s) — %s" % (ctx.pid, p["key"], p["what"], p["detail"][:200]))
     out.update({"evaluations": cov["evaluations"], "distinct_nontrivial": cov["distinct"],
                 "rule": "generated cabinets (0-3 folders, stored/MSZIP, reserve {none, zero-padded 21..65535, Authenticode 20-byte}, every header field varied, "
                         "refused classes: multipart, flags, per-folder/per-block reserve, nonzero padding, gaps, trailing bytes, lying sizes, truncation at every boundary) "
@@ -432,7 +441,6 @@ def run(ctx, replay=None):
                         "each signed up to three times (raw blob via MakePatch, functest RSA key via library and via the transformer pipeline, same path and new path); "
                         "distinct = distinct (format, input class, digest/extract/verify outcome) + signing outcome classes; single-byte mutation sweeps of 5 signed samples",
                 "samples": cov["samples"], "format_notes": cov["notes"], "mutation": cov.get("mutation"),
-                "provisional_findings": [cov["provisional"][k] for k in sorted(cov["provisional"])],
                 "aspects": ASPECT_THEOREMS})
     return ctx.finish("proof", out, ["idealised cryptography (symbolic sign/verify, collision freedom only where stated as a premise)",
                                      "files shorter than 4 GiB (uint32 wrap-around is modelled; the laws' domain excludes it explicitly)",
